@@ -388,6 +388,45 @@ def comments_are_whitespace(ctx, cr):
                sample={"fn": owner, "skippers": sorted(users[owner])} if owner.endswith("rule_clause") else None)
 
 
+def keyword_boundaries(ctx, cr):
+    """an alphabetic keyword that is followed by another token must be followed by a separator, otherwise an identifier that merely
+    starts with the keyword is split (`order_ok` on a new line read as `or der_ok`, which silently joins two lines into one
+    disjunction): or_join demands one_or_more_ws_or_comment after the or-term, the `not` keyword demands a blank (space1)"""
+    rule = "R-C14-keyword-boundaries"
+
+    def fnitems(key):
+        out = set()
+        for k, f in cr.fns.items():
+            if k == key or k.startswith(key + "::{closure"):
+                def scan(o):
+                    if isinstance(o, dict):
+                        kk = o.get("k")
+                        if isinstance(kk, dict) and "ty" in kk:
+                            t = cr.types[kk["ty"]]
+                            if t["k"] == "fndef":
+                                out.add(M.norm_path(t.get("p", "")))
+                        for v in o.values():
+                            scan(v)
+                    elif isinstance(o, list):
+                        for v in o:
+                            scan(v)
+                scan(f["blocks"])
+                for bi, t in M.iter_calls(f):
+                    out.add(M.norm_path(t["fn"].get("path", "")))
+        return out
+    for key, term, seps in ((P + "or_join", P + "or_term", (P + "one_or_more_ws_or_comment",)),
+                            (P + "not", None, ("nom::character::complete::space1", "nom::character::complete::multispace1", P + "one_or_more_ws_or_comment"))):
+        if key not in cr.fns:
+            ctx.lost(rule, "%s:%s" % (rule, key.split("::")[-1]), key)
+            continue
+        items = fnitems(key)
+        has_term = term is None or term in items
+        has_sep = any(x in items for x in seps)
+        ctx.ob(rule, "%s:%s" % (rule, key.split("::")[-1]), has_term and has_sep,
+               "%s does not require a separator after the keyword (uses %s): an identifier beginning with the keyword is split" % (key.split("::")[-1], sorted(x.split("::")[-1] for x in items if "parser::" in x or "nom::character" in x))
+               if not (has_term and has_sep) else "%s requires %s after the keyword" % (key.split("::")[-1], [x.split("::")[-1] for x in seps if x in items]), fn=cr.fns[key])
+
+
 def run(ctx):
     cr = ctx.lib
     keyword_synonyms(ctx, cr)
@@ -396,6 +435,7 @@ def run(ctx):
     type_block(ctx, cr)
     default_rule(ctx, cr)
     comments_are_whitespace(ctx, cr)
+    keyword_boundaries(ctx, cr)
     ctx.assumptions += [
         "nom's tag/char/alt/value combinators behave as documented (dependency)",
         "ambiguity of ordered alternatives and whitespace/comment acceptance inside a clause are not decided",
